@@ -18,13 +18,19 @@ INSERT INTO A VALUES (1, 'one', 10);
 INSERT INTO A VALUES (2, 'two', 20);
 INSERT INTO B VALUES (7, 1);
 INSERT INTO B VALUES (8, 0);
+INSERT INTO B VALUES (12, 33);
+CREATE TABLE D (Id UNIQUE_ID, A_Id UNIQUE_ID);
+INSERT INTO D VALUES (60, 1);
+INSERT INTO D VALUES (61, 33);
 INSERT INTO Inferred VALUES (5, 'x');
 INSERT INTO Named (b, a) VALUES ('x', 5);
 '''
+# the first later input defines NO class: it supplies the instance a dangling reference of T0 points to (B 12 -> A 33),
+# and an association between classes that are already there
 T1 = '''INSERT INTO A VALUES (3, 'three', 30);
 INSERT INTO B VALUES (9, 3);
-CREATE TABLE C (Id UNIQUE_ID);
-INSERT INTO C VALUES (4);
+INSERT INTO A VALUES (33, 'late', 0);
+CREATE ROP REF_ID R2 FROM MC D (A_Id) TO 1C A (Id);
 INSERT INTO Inferred VALUES (6, 'y');
 INSERT INTO Named (a, b) VALUES (6, 'y');
 '''
@@ -150,7 +156,7 @@ def check(si: int) -> bool:
                 text = T1
             elif not any('CREATE TABLE Inferred' in t for t in accepted):
                 # an explicit definition of a class that earlier builds had to infer from its rows
-                text = "CREATE TABLE Inferred (a INTEGER, b STRING);\nCREATE TABLE Named (A REAL, B STRING, c BOOLEAN);\nINSERT INTO A VALUES (%d, 'more', 0);\n" % (10 + len(accepted))
+                text = "CREATE TABLE C (Id UNIQUE_ID);\nINSERT INTO C VALUES (4);\nCREATE TABLE Inferred (a INTEGER, b STRING);\nCREATE TABLE Named (A REAL, B STRING, c BOOLEAN);\nINSERT INTO A VALUES (%d, 'more', 0);\n" % (10 + len(accepted))
             else:
                 text = "INSERT INTO A VALUES (%d, 'more', 0);\n" % (10 + len(accepted))
             with notrace():
